@@ -73,4 +73,13 @@ def generate(ctx):
         tw = ns["TowerConfig"](name="T", lat=lat, lon=lon, z_m=Num(2))
         tw.compute_local_xy(p0, l0)
         run.oblige("tower.compute_local_xy", loops.scalar_eq(tw.x, x) & loops.scalar_eq(tw.y, y), kind="post", view="value")
+        # ... whatever the tower's coordinates were before (a tower object that already went through a configuration and
+        # is handed to another one -- dataclasses.replace(config, ...) re-runs __post_init__ on the SAME towers): the result
+        # is a function of lat/lon and the reference only, and repeating the call changes nothing
+        x0, y0 = sym.fresh_real("x_before"), sym.fresh_real("y_before")
+        tw2 = ns["TowerConfig"](name="T", lat=lat, lon=lon, z_m=Num(2), x=x0, y=y0)
+        tw2.compute_local_xy(p0, l0)
+        run.oblige("tower.compute_local_xy.independent-of-previous-coordinates", loops.scalar_eq(tw2.x, x) & loops.scalar_eq(tw2.y, y), kind="post", view="value")
+        tw2.compute_local_xy(p0, l0)
+        run.oblige("tower.compute_local_xy.idempotent", loops.scalar_eq(tw2.x, x) & loops.scalar_eq(tw2.y, y), kind="post", view="value")
     ctx.explore("geo", thunk, P)
